@@ -379,6 +379,12 @@ __CPROVER_ensures((b->infinity == 0 && VF_EC_PP_INF_OLD(a) && __CPROVER_return_v
     (vf_n_pop == 1 && vf_pop_fn == VF_POP_import_affine && vf_st_pop == 0 && vf_pop_a == VF_ID(a) && vf_pop_b == VF_ID(b)))
 __CPROVER_ensures((b->infinity == 0 && !VF_EC_PP_INF_OLD(a) && __CPROVER_return_value == 0) ==>
     (vf_n_pop == 0 || (vf_n_pop == 1 && vf_pop_fn == VF_POP_add && vf_st_pop == 0 && vf_pop_a == VF_ID(a) && vf_pop_b == VF_ID(a))))
+/* T1 == 0 and T2 == 0: doubling call;  T1 == 0 and T2 != 0: infinity, nothing else;  T1 != 0: formula */
+__CPROVER_ensures((b->infinity == 0 && !VF_EC_PP_INF_OLD(a) && __CPROVER_return_value == 0 && vf_n_msub >= 2 && vf_msub_z0 && vf_msub_z1) ==>
+    (vf_n_pop == 1 && vf_pop_fn == VF_POP_add))
+__CPROVER_ensures((b->infinity == 0 && !VF_EC_PP_INF_OLD(a) && !vf_ec_fail && vf_n_msub >= 2 && vf_msub_z0 && !vf_msub_z1) ==>
+    (__CPROVER_return_value == 0 && vf_n_pop == 0 && VF_EC_PP_INF(a) && vf_n_msub == 2))
+__CPROVER_ensures((b->infinity == 0 && !VF_EC_PP_INF_OLD(a) && vf_n_msub >= 2 && !vf_msub_z0) ==> vf_n_pop == 0)
 #endif
 ;
 
